@@ -59,7 +59,15 @@ def derived(draw, base, pool):
     """A second region built from `base`: identical, grown / shrunk by delta, circumscribed or
     inscribed shape of the other type, shifted."""
     delta = draw(st.sampled_from([0.0, 1e-9, 0.125, 0.5, 3.0, -1e-9, -0.125, -0.5]))
-    kind = draw(st.sampled_from(["same", "grow", "circum", "inscr", "shift"]))
+    kind = draw(st.sampled_from(["same", "grow", "circum", "inscr", "shift", "diag", "diag"]))
+    if kind == "diag" and base["type"] == "circ" and base["r"] > 0:
+        # inner disc offset diagonally, internally tangent to the rim up to delta (axis-extreme points are not the farthest ones)
+        import math
+        a = base["r"] * draw(st.sampled_from([0.1, 0.25, 0.5]))
+        b = a * draw(st.sampled_from([1.0, -1.0, 0.5, 2.0]))
+        return {"type": "circ", "cx": base["cx"] + a, "cy": base["cy"] + b, "r": max(0.0, base["r"] - math.hypot(a, b) + delta)}
+    if kind == "diag":
+        kind = "shift"
     if base["type"] == "rect":
         x1, y1, x2, y2 = geom.norm_rect(base)
         if kind in ("same", "grow", "shift"):
